@@ -59,6 +59,7 @@ func TestMain(m *testing.M) {
 		panic(err)
 	}
 	code := m.Run()
+	rec.Set("server_pipeline_transport_retries", pipe.TransportRetries)
 	rec.Flush()
 	os.RemoveAll(workDir)
 	os.Exit(code)
